@@ -17,14 +17,19 @@
 (*                          above the baseline, pooled connections         *)
 (*   fresh(ok)              a later call on the same client to a healthy   *)
 (*                          server succeeded                               *)
-(* C09: ret(resp) only with (rc, rn) = (c, n) and only after answer(c, n). *)
+(* C09: ret(resp) only with (rc, rn) = (c, n) and only after answer(c, n); *)
+(* with a healthy peer every call returns its response.                    *)
 (* C10: no hang; ms <= bound (bound is the call's deadline plus slack, or  *)
 (* the prompt-return allowance after a lost connection / Abort); nothing   *)
 (* accumulates at quiescence; the client stays usable.                     *)
 (***************************************************************************)
 EXTENDS Integers, Sequences, FiniteSets, TLC
 
-MMInit(e) == [active |-> {}, answered |-> {}, mustfail |-> e.mustfail]
+\* healthy: the peer answers every request and no fault is injected (and the
+\* transport does not lose datagrams): then every call gets its response, an
+\* error return is a lost call.
+MMInit(e) == [active |-> {}, answered |-> {}, mustfail |-> e.mustfail,
+              healthy |-> IF "healthy" \in DOMAIN e THEN e.healthy ELSE FALSE]
 
 MMStep(s, e) ==
     CASE e.ev = "callB" ->
@@ -35,6 +40,7 @@ MMStep(s, e) ==
             ELSE IF e.kind = "resp"
                  THEN IF e.rc = e.c /\ e.rn = e.n /\ <<e.c, e.n>> \in s.answered
                       THEN {[s EXCEPT !.active = @ \ {<<e.c, e.n>>}]} ELSE {}
+                 ELSE IF s.healthy THEN {}
                  ELSE {[s EXCEPT !.active = @ \ {<<e.c, e.n>>}]}
       [] e.ev = "quiesce" ->
             IF s.active = {} /\ e.pending = 0 /\ e.leak <= 0 THEN {s} ELSE {}
